@@ -223,7 +223,7 @@ def vmf_instance(D, N, lead=()):
         y = B.real('y', lead + (N, D))
         for i in np.ndindex(*(lead + (N,))):
             B.require('observation-nonzero', sp.gt(sp.sum(v * v for v in vecs(y, i, D)), 0.0))
-        return {'mean': B.real('mu', lead + (D,)), 'kappa': B.real('kappa', lead, lo=1e-6, hi=500.0, dist=(0.1, 20.0)), 'y': y}
+        return {'mean': B.real('mu', lead + (D,)), 'kappa': B.real('kappa', lead, lo=1e-6, hi=500.0, dist=lambda r: 10.0 ** r.uniform(-3.0, 2.69)), 'y': y}
 
     def call(inp):
         k = inp['kappa']
@@ -263,7 +263,7 @@ def watson_instance(D, N, lead=()):
         return [(m, 'hyp1f1', stubs.uf_stub('hyp1f1', real_h, 'scipy.special.hyp1f1(a, b, x): uninterpreted positive function'))]
 
     def make(B):
-        return {'mode': B.cplx('w', lead + (D,)), 'kappa': B.real('kappa', lead, lo=1e-6, hi=500.0, dist=(0.1, 20.0)),
+        return {'mode': B.cplx('w', lead + (D,)), 'kappa': B.real('kappa', lead, lo=1e-6, hi=500.0, dist=lambda r: 10.0 ** r.uniform(-3.0, 2.69)),
                 'y': B.cplx('y', lead + (N, D))}
 
     def call(inp):
